@@ -179,6 +179,16 @@ impl Documents {
                 err: err.to_string(),
             })?;
 
+        // `write_all` on a tokio file only hands the bytes to a background blocking task: without
+        // a flush the (truncated) file can still be empty when the compilation request that is
+        // sent right after this call makes the compiler read it.
+        file.flush()
+            .await
+            .map_err(|err| DocumentError::UnableToWriteFile {
+                path: uri.path().to_string(),
+                err: err.to_string(),
+            })?;
+
         Ok(())
     }
 
